@@ -33,6 +33,17 @@ Proof.
 Qed.
 Print Assumptions C04_exact_reference.
 
+(* the value returned is the result of the last leaf applied (Python's None when a do-all decision
+   without branches ran last), and every node runs on the data its own parent decision produced:
+   the value/data-flow interpreter execv refines exec *)
+Theorem C04_value : forall g f n p tr r v,
+  execv f g None n p = Ok (tr, r, v) ->
+  exec f g n p = Ok (map fst tr, r) /\ v = ret_of g (map fst tr) /\
+  exists tl, tr = (n, None) :: tl /\
+    forall x q, In (x, Some q) tl -> is_dec g q = true /\ In x (outs_of g q).
+Proof. intros g f n p tr r v H. exact (execv_spec g f None n p tr r v H). Qed.
+Print Assumptions C04_value.
+
 (* "executes without error" fails on the pinned code: _analyze_forwards looks an incoming record
    up by index only, so _backward can walk a cycle forever.  Productive 5-node witness: *)
 Definition c04_witness : list op :=
